@@ -145,6 +145,14 @@ Theorem C17_goroutines_end : forall cap stop n s,
 Proof. exact goroutines_end. Qed.
 Print Assumptions C17_goroutines_end.
 
+(* in the process model the caller receives each member's response at most once, and only from
+   members that have finished: the sequences of received responses are duplicate-free lists of
+   member indices, which is what the decision theorems above quantify over *)
+Theorem C17_received_once : forall cap stop n s, reachable cap stop n s ->
+  NoDup (p_recvd s) /\ forall i, In i (p_recvd s) -> (i < n)%nat /\ nth_error (p_ms s) i = Some MDone.
+Proof. exact received_once. Qed.
+Print Assumptions C17_received_once.
+
 (* the model satisfies the property predicate on every guarded input, and so does every
    observation that agrees with the model *)
 Theorem C17_model_ok : forall a ms order,
@@ -174,6 +182,13 @@ Theorem C17_goroutines_end_v0_refuted :
   x_leak (exec_v0 AFast [mkM Ok false; mkM Ok false; mkM Ok false] [0; 1; 2]%nat) = 3 /\
   x_leak (exec_v0 ARace [mkM Fail false; mkM Ok false] [0; 1]%nat) = 2.
 Proof. split; [exact goroutines_end_v0_refuted|exact exec_v0_leaks]. Qed.
+
+(* NOT part of the claim (bounded): where C17_model_meets_contract_partial has its hypothesis —
+   ExecuteUpTo-based strategies with cancellation-aware members — model and contract coincide on
+   every group of up to 3 members of every kind, every order, budgets -1..3, strategies 0..7. *)
+Example C17_upto_aware_small_instances :
+  small_instances_agree 0 && small_instances_agree 1 && small_instances_agree 2 && small_instances_agree 3 = true.
+Proof. exact small_instances. Qed.
 
 (* ---- non-vacuity ---- *)
 Example C17_nonvacuous_most :
